@@ -11,7 +11,10 @@ RULE = ("every acyclic ADMG(n) n<=3 quick / n<=4 thorough under the label famili
         "(beyond the property's quantifier); the empty graph; every small graph also as pywhy_graphs.ADMG instance / three-layer "
         "MixedEdgeGraph with an edge-less third layer, and with user node attributes that look like the generated ones "
         "(label='Unobserved Confounders', observed='no'/'yes', on all or on seeded nodes incl. common parents of bidirected pairs); "
-        "query sets checked for mutation; distinct by (canonical graph, label family, repeat, names, object kind, look-alike "
+        "query sets checked for mutation; multi-digit generated-looking caller names ('U9','U10',.. / 'U2','U10' / 'U98'..) and "
+        "identity-hashed label objects (graphs.labeler family 'obj'); a preceding call on an unrelated graph (cross-call contamination); "
+        "a DEEP stream of three 150-300 node chains run with the recursion limit lowered to depth+120 (structure compared with the "
+        "model, d-separation of the result vs m_separated of the input compared with each other); distinct by (canonical graph, label family, repeat, names, object kind, look-alike "
         "attributes); non-trivial = "
         "the graph has a bidirected edge and the queries contain a separated and a connected one")
 EXHAUSTIVE = {"quick": "all ADMG(n) n<=3 x {int,'U<i>'} labels, all disjoint X,Y,Z",
@@ -62,7 +65,7 @@ def gen_cases(tier, rng):
     for n in range(1, nmax + 1):
         for g in gr.enum_admg(n):
             qs = queries(g["V"])
-            fams = [None, "U"] + (["Urev", "Ushift"] if g["B"] and n <= 3 else [])
+            fams = [None, "U"] + (["Urev", "Ushift", "U9", "obj"] if g["B"] and n <= 3 else [])
             for fam in fams:
                 yield {"kind": "admg%d" % n, "g": g, "fam": fam, "qs": qs, "oracle": True, "aseed": rng.randrange(64)}
     # BOUNDARY: the empty graph
@@ -75,14 +78,23 @@ def gen_cases(tier, rng):
             if n == 4 and j % 6:
                 continue
             qs = queries(g["V"])
-            yield {"kind": "kinds%d" % n, "g": g, "fam": "U" if j % 3 == 0 else None, "qs": qs, "oracle": True,
+            yield {"kind": "kinds%d" % n, "pre": j % 2 == 1, "g": g, "fam": "U" if j % 3 == 0 else None, "qs": qs, "oracle": True,
                    "aseed": rng.randrange(64), "okind": ("admg", "mixed3")[j % 2],
                    **({"rep": rng.randrange(1 << 30)} if j % 4 == 0 else {})}
             if g["B"] and g["D"]:
                 yield {"kind": "ulike%d" % n, "g": g, "fam": None, "qs": qs, "oracle": True, "aseed": rng.randrange(64),
                        "ulike": 2 * rng.randrange(1 << 24) + (j % 2), "okind": ("mixed2", "admg", "mixed3")[j % 3]}
+    # DEEP stream: long chains (alternating -> and <->, side branches), recursion limit lowered to current depth + 120
+    for L in (150, 220, 300):
+        D = [[i, i + 1] for i in range(L - 1) if i % 3 != 1] + [[i, L + i // 10] for i in range(0, L, 10)]
+        B = [[i, i + 1] for i in range(L - 1) if i % 3 == 1] + [[i, i + 2] for i in range(0, L - 2, 7)]
+        g = gr.G(range(L + L // 10 + 1), D=D, B=B)
+        # 0 and 2 given {}: 0 -> 1 <-> 2 connected;  0 and 3 given {}: 0->1<->2->3? 1 is a collider: but 0 <-> 2 -> 3 connects
+        iqs = [[[0], [2], []], [[0], [L - 1], []], [[L + 1], [L + 2], []], [[0], [1], [5]]]
+        yield {"kind": "deep", "g": g, "fam": None if L != 220 else "str", "qs": [], "iqs": iqs, "oracle": False,
+               "aseed": L, "_reclimit": 120, "okind": ("mixed2", "admg", "mixed3")[L % 3]}
     nr = 240 if tier == "quick" else 2400
-    fams = [None, "U", "Urev", "Ushift", "tuple", "str"]
+    fams = [None, "U", "Urev", "Ushift", "tuple", "str", "U9", "obj", "U2_10", "U98"]
     for i in range(nr):
         n = rng.randint(4, 8)
         g = gr.random_kinds_graph(rng, n, gr.ADMG_KINDS, p_edge=rng.choice([0.15, 0.25, 0.4]))
@@ -105,6 +117,8 @@ def gen_cases(tier, rng):
             c.update(ulike=2 * rng.randrange(1 << 24) + (i // 3) % 2)
         if i % 4 != 3:
             c.update(okind=("mixed2", "admg", "mixed3")[i % 3])
+        if i % 5 == 0:
+            c.update(pre=True)
         if i % 4 == 1:
             c.update(kind="rand-rep", rep=rng.randrange(1 << 30))
         elif i % 4 == 3:
@@ -156,7 +170,10 @@ def labels(case):
     if fam in gr.LABEL_FAMILIES:
         return gr.labeler({"_lab": fam})
     n = len(case["g"]["V"])
-    f = {"U": lambda v: "U%d" % v, "Urev": lambda v: "U%d" % (n - 1 - v), "Ushift": lambda v: "U%d" % (v + 1)}[fam]
+    f = {"U": lambda v: "U%d" % v, "Urev": lambda v: "U%d" % (n - 1 - v), "Ushift": lambda v: "U%d" % (v + 1),
+         "U9": lambda v: "U%d" % (v + 9),                       # U9, U10, ...: straddles a digit boundary
+         "U2_10": lambda v: "U%d" % ([2, 10] + list(range(30, 30 + n)))[v],
+         "U98": lambda v: "U%d" % (v + 98)}[fam]
     table = {}
 
     def lab(v):
@@ -292,6 +309,15 @@ def run_impl(case):
                 ms[-1] = "query-sets-mutated"
         return ds, ms
 
+    if case.get("pre"):
+        # CROSS-CALL CONTAMINATION: the API is first used on an unrelated graph with other nodes; nothing may carry over
+        A = pywhy_nx.MixedEdgeGraph(graphs=[nx.DiGraph([("pre0", "U0"), ("U0", "U1")]), nx.Graph([("U1", "U7"), ("pre0", "U3")])],
+                                    edge_types=["directed", "bidirected"])
+        bidirected_to_unobserved_confounder(A)
+        try:
+            bidirected_to_unobserved_confounder(pywhy_nx.MixedEdgeGraph(graphs=[nx.DiGraph([(1, 2)])], edge_types=["directed"]))
+        except Exception:  # noqa  (no bidirected layer: whatever it does, it must not leak into the next call)
+            pass
     rep = case.get("rep")
     if rep is None:
         M, lab, inv = build(case)
@@ -323,6 +349,13 @@ def run_impl(case):
     out = {"mutated": gr.snapshot(M) != before}
     out.update(observe(M, R, case, lab, inv))
     out["dsep_result"], out["msep_input"] = queries(M, R)
+    if case.get("iqs"):
+        # DEEP cases: the model answers no queries there (too large); d-separation of the result vs m_separated of the input
+        full, case["qs"] = case["qs"], case["iqs"]
+        a, b = queries(M, R)
+        case["qs"] = full
+        out["deep_consistent"] = a == b and all(isinstance(t, int) for t in a)
+        out["deep_values"] = a
     if rep is not None:
         # the caller edits the returned object; converting again (same object, and a copy of it) must still be right
         first = observe(M, R, case, lab, inv)
@@ -368,6 +401,8 @@ def compare(case, impl, model):
         return "d-separation(result)"
     if impl["msep_input"] != impl["dsep_result"]:
         return "m_separated(input)-vs-d-separation(result)"
+    if impl.get("deep_consistent") is False or ("expect_iqs" in case and impl.get("deep_values") != case["expect_iqs"]):
+        return "deep-queries"
     if impl.get("second_call_same") is False:
         return "second-call-after-editing-the-result"
     if impl.get("copy_same") is False:
